@@ -87,6 +87,7 @@ class Book:
         self.ref = {a: wb.outcome(comp.evaluate, a) for a in self.addresses}
         self.failing = any(o[0] == 'x' for o in self.ref.values())
         self.found = []
+        self.truth = None
         self.shape = wbgen.shape_signature(spec, meta)
 
     def case(self):
@@ -111,6 +112,23 @@ class Book:
                          f'{self.ref[a]!r}', {'kind': 'order', 'order': list(order)})
                 return False
         self.ctx.case(('order', self.shape, tuple(order)))
+        if self.config == 'xlsx-stale':
+            # recalculate() drops every stored result: whatever order the cells entered the model in, each cell then
+            # shows what its formula gives (the values of a compile without stored results)
+            if self.truth is None:
+                self.truth = wb.fresh_values(self.spec, self.addresses)
+            out = wb.outcome(comp.recalculate)
+            self.ctx.count('recalculate_after_order' if out[0] == 'v' else f'recalculate_raised:{out[1]}')
+            if out[0] == 'v':
+                for a in self.addresses:
+                    got = wb.outcome(comp.evaluate, a)
+                    self.ctx.count('element_compares')
+                    if not wb.same_outcome(got, self.truth[a]):
+                        self.bad('value-after-recalculate-depends-on-the-order-of-first-evaluation',
+                                 f'stored results stale, cells first evaluated in the order {order}, then '
+                                 f'recalculate(): evaluate({a!r}) = {got!r}, the formulas give {self.truth[a]!r}',
+                                 {'kind': 'order', 'order': list(order)})
+                        return False
         return True
 
     def orders(self, rng, max_sampled):
